@@ -7,6 +7,8 @@ pub mod load;
 pub mod parse;
 pub mod report;
 pub mod syntax;
+#[cfg(okane_verif)]
+pub mod verif;
 pub(crate) mod testing;
 
 #[cfg(test)]
